@@ -181,6 +181,11 @@ def gen(seed, tier):
         for name in ("big", "little", "Big", "LITTLE", "", "middle", "b", "l", "bi", "bigg", "lit", "little ", "big-endian"):
             out.append(f"unpack_bits {arr(sh, [5] * tot)} n n s{hexs(name)}")
             out.append(f"pack_bits {arr(sh, [1] * tot)} n s{hexs(name)}")
+    # shapes that do not fit although the element counts are equal (seeded change C09o: zip took the other operand
+    # as it is when the counts agree)
+    for s1, s2 in (([2, 3], [3, 2]), ([6], [2, 3]), ([2, 3], [6]), ([2, 3, 2], [3, 2, 2]), ([4], [2, 2]), ([2, 2], [4]), ([3, 2], [2, 3]), ([2, 6], [3, 4]), ([1, 6], [6, 1]), ([2, 3], [3])):
+        for op in ("zip", "gcd@i32", "lcm@i32", "broadcast"):
+            out.append(f"{op} {arr(s1, [k + 1 for k in range(prod(s1))])} {arr(s2, [k + 2 for k in range(prod(s2))])}")
     out.append("max a0: n")
     out.append("argmax a0: n z2")
     out.append("unpack_bits a2:6,255 n z-1 z0")
